@@ -2,7 +2,7 @@
 
 case = {
   'cache': 'default' | 'mapping',
-  'threads': [ {'runner': 'run'|'manual',
+  'threads': [ {'runner': 'run'|'manual'|'resume' (+ 'pause': seconds the stopped loop stays idle before it is run again),
                 'callers': [ {'at': t, 'key': 'a'|'b', 'cancel': t|None, 'timeout': tau|None}, ...],
                 'end': {'mode': 'await'|'leave'|'stop', 'at': t} }, ... ],
   'plans': [ {'dur': d, 'outcome': 'ret'|'raise'}, ... ],   # per invocation, in entry order (cyclic)
@@ -58,7 +58,7 @@ def horizon(case):
     for p in case['plans']:
         h += max(0, p['dur'])
     for t in case['threads']:
-        h += t['end']['at'] + 60.0
+        h += t['end']['at'] + 60.0 + t.get('pause', 0)
         for c in t['callers']:
             h += c['at'] + (c['cancel'] or 0) + (c['timeout'] or 0)
     return h * 2 + 130
@@ -111,9 +111,10 @@ def run(case, max_steps=300000):
             else A.threadsafe_async_cache(f)
 
         def live_inv_for(key):
+            # an open invocation on a loop that is running right now (a loop that was stopped with the
+            # invocation pending and is run again later resumes that invocation)
             for r in invs:
-                if r['key'] == key and r['exit'] is None and r['loop'].is_running() \
-                        and r['loop'].run_gen == r['gen']:
+                if r['key'] == key and r['exit'] is None and r['loop'].is_running():
                     return True
             return False
 
@@ -122,7 +123,7 @@ def run(case, max_steps=300000):
                 if c['arrived'] is None or c['done'] is not None:
                     continue
                 loop = c['loop']
-                if loop is None or not loop.is_running() or loop.run_gen != c['gen']:
+                if loop is None or not loop.is_running():
                     continue
                 # itself computing?
                 if any(r['caller'] == cid and r['exit'] is None for r in invs):
@@ -199,12 +200,31 @@ def run(case, max_steps=300000):
                     await await_all()
 
             def mark_left():
+                if spec['runner'] == 'resume':
+                    return
                 for (ti, j), c in callers.items():
                     if ti == i and (c['task'] is None or not c['task'].done()):
                         c['left_pending'] = True
 
             def run_thread():
-                if spec['runner'] == 'run':
+                if spec['runner'] == 'resume':
+                    # run_until_complete returns with calls pending, the owner is busy elsewhere for a while
+                    # (loop stopped, not closed), then runs the loop again until the leftovers are finished
+                    loop = aio.new_event_loop()
+                    try:
+                        try:
+                            loop.run_until_complete(main())
+                        except RuntimeError as e:
+                            if 'Event loop stopped' not in str(e):
+                                raise
+                        sim.sleep(spec.get('pause', 0.25))
+                        left = [c['task'] for (ti, j), c in callers.items()
+                                if ti == i and c['task'] is not None and not c['task'].done()]
+                        if left:
+                            loop.run_until_complete(aio.gather(*left, return_exceptions=True))
+                    finally:
+                        loop.close()
+                elif spec['runner'] == 'run':
                     try:
                         aio.run(_mark(main(), mark_left))
                     except RuntimeError as e:   # 'Event loop stopped before Future completed.'
